@@ -73,7 +73,7 @@ struct MeasureRecordBatchWriter {
     void batch_write_bytes(const simd_bit_table<W> &table, size_t num_major_u64) {
         if (output_format == SampleFormat::SAMPLE_FORMAT_PTB64) {
             for (size_t k = 0; k < writers.size(); k++) {
-                for (size_t w = 0; w < num_major_u64; w++) {
+                for (size_t w = 0; w < num_major_u64 * 64; w++) {
                     uint8_t *p = table.data.u8 + (k * 8) + table.num_minor_u8_padded() * w;
                     writers[k]->write_bytes({p, p + 8});
                 }
